@@ -8,7 +8,9 @@ wit.native_witnesses = ["c19_wit_csv_formatting_keeps_the_search_error"]
 fm = VerusUnit("c19_format", "c19_format", rlimit=30, paired_kani=(wit, []))
 aw = KaniUnit("c19_app_wit", APP, modules=[dict(file=APP + "/src/app/compass/compass_app.rs", src="app_wit.rs")], harnesses=[])
 aw.native_witnesses = ["c19_wit_one_record_per_response_in_the_file"]
-UNITS = [fm, wit, aw]
+wm = KaniUnit("c19_write_mode_wit", APP, modules=[dict(file=APP + "/src/app/compass/response/write_mode.rs", src="c19_write_mode_wit.rs")], harnesses=[])
+wm.native_witnesses = ["c19_wit_header_once_and_appending_runs_keep_earlier_records"]
+UNITS = [fm, wit, aw, wm]
 EXPLANATION = ("ONE clause of C19 only: 'writing a response never removes or replaces information (such as a search error) in the response handed back to the caller'. Decided (Verus, verbatim ResponseOutputFormat::format_response, "
                "both formats, any mapping): every top-level field the response had before formatting is still there with the same value afterwards -- at most ONE field that was not there is added (the reasons why CSV columns could "
                "not be filled); the JSON formats do not touch the response. The pinned code replaced the search error of a failed query by the CSV messages (found by the witness, fixed in /repo a75a949). A native witness runs batches through the real CompassApp::run with newline-delimited JSON file output (parallelism 1..3, both persistence policies): one parseable record per response in the file, input-rejected queries included (those were missing on the pinned code: fixed)")
